@@ -11,7 +11,7 @@
 From Coq Require Import List Bool Arith String Reals Lra Lia.
 From PW Require Import Num NumR Vec NpList Result.
 From PW.model Require Import M_shape M_inflection M_array.
-From PW.proofs Require Import P_shape P_shape_tables P_inflection.
+From PW.proofs Require Import P_shape P_shape_forms P_shape_tables P_inflection.
 From PW.corr Require Import C20_expected.
 Import ListNotations.
 Local Open Scope string_scope.
@@ -112,6 +112,76 @@ Theorem C20_contract_accepts_iff_documented_form : forall name fs t,
   In t (tuples (names_of name) (universe (List.length (names_of name)))) ->
   accepts_effective all_contracts delegation forms_b0 name (env_of t) = in_forms forms_b0 fs (env_of t).
 Proof. exact contracts_accept_exactly_documented_forms. Qed.
+
+(* ---- STRICTNESS FOR ALL SHAPES (any rank, any sizes) ------------------------------------------------------------------
+   A contract in the normal form nf_ok (Check; CheckAny with patterns of pairwise different rank; Columnize;
+   IfPresent a (Check a ..)) accepts exactly the shapes described by the canonical forms computed symbolically from it
+   (forms_of_contract): per argument None / number / an array whose every dimension is a literal, a receiver length or
+   equal to the dimension at a named (argument, axis) position.  Proved once by induction over the check list. *)
+Theorem C20_contract_accepts_iff_symbolic_forms : forall b0 args cs,
+  forallb (fun xv : string * option nat => match snd xv with Some _ => true | None => false end) b0 = true ->
+  forallb nf_ok cs = true ->
+  accepts cs args b0 = in_cforms b0 (forms_of_contract cs (senv_of b0)) args.
+Proof. exact accepts_iff_forms_init. Qed.
+
+(* 57 of the 88 registered array-taking callables (all_shapes_covered): no delegation, golden contract in normal form, and
+   the symbolic forms are -- as a set, decided by computation over the committed tables -- the canonical forms of the
+   documented forms.  For those, for ALL argument values: accepted iff the shapes are a documented form. *)
+Theorem C20_accepts_iff_documented_form_all_shapes : forall name fs args,
+  In (name, fs) documented_forms -> all_shapes_row (name, fs) = true ->
+  accepts_effective all_contracts delegation forms_b0 name args =
+  in_cforms forms_b0 (map (canon forms_ext) fs) args.
+Proof. exact all_shapes_strict. Qed.
+
+Theorem C20_all_shapes_covered_have_rows : forall name, In name all_shapes_covered ->
+  exists fs, In (name, fs) documented_forms /\ all_shapes_row (name, fs) = true.
+Proof. exact all_shapes_row_of_covered. Qed.
+
+(* 20 further callables delegate (all_shapes_via_delegates): for ALL argument values, accepted iff the own symbolic
+   forms hold and, for every delegate, the WIRED arguments satisfy the symbolic forms of the callee's contract (which
+   are the callee's documented forms where the callee is itself covered, and do not depend on receiver lengths) *)
+Theorem C20_delegating_accepts_iff_callee_forms_all_shapes : forall name args, delegating_row name = true ->
+  accepts_effective all_contracts delegation forms_b0 name args =
+  in_cforms forms_b0 (forms_of_contract (contract_of all_contracts name) (senv_of forms_b0)) args &&
+  deleg_forms_ok (delegates_list name) args.
+Proof. exact all_shapes_delegating. Qed.
+
+(* coverage, pinned: 57 + 20 of 88; the 11 outside (CheckSame / NeedsShape / CheckFlat contracts, their delegators, and the
+   two not-modelled callables) keep the finite-universe theorem above *)
+Theorem C20_all_shapes_coverage :
+  (List.length all_shapes_covered, List.length all_shapes_via_delegates, List.length documented_forms) = (57, 20, 88)%nat /\
+  all_shapes_outside =
+  ["polliwog.line._line_functions.coplanar_points_are_on_same_side_of_line";
+   "polliwog.line._line_functions.project_point_to_line";
+   "polliwog.line._line_object.Line.project";
+   "polliwog.plane._plane_intersect.intersect_segment_with_plane";
+   "polliwog.transform._affine_transform.transform_matrix_for_rotation";
+   "polliwog.transform._composite_transform.CompositeTransform.rotate";
+   "polliwog.transform._coordinate_manager.CoordinateManager.rotate";
+   "polliwog.transform._rodrigues.cv2_rodrigues";
+   "polliwog.transform._rodrigues.rodrigues_vector_to_rotation_matrix";
+   "polliwog.transform._viewing.world_to_view";
+   "polliwog.tri.functions.tri_contains_coplanar_point"].
+Proof. exact (conj all_shapes_covered_count all_shapes_outside_list). Qed.
+
+(* the canonical (positional) reading of the documented forms and their unification reading (in_forms, used by the
+   finite-universe theorem) accept the same tuples of the universe *)
+Theorem C20_canonical_forms_agree_on_universe :
+  forallb (fun nf : string * list form =>
+     forallb (fun t => Bool.eqb (in_forms forms_b0 (snd nf) (env_of t))
+                                (in_cforms forms_b0 (map (canon forms_ext) (snd nf)) (env_of t)))
+             (tuples (names_of (fst nf)) (universe (List.length (names_of (fst nf)))))) documented_forms = true.
+Proof. exact canon_agrees_on_universe. Qed.
+
+(* non-vacuity: signed_distance_to_plane is covered, and its four canonical documented forms are as expected *)
+Example C20_all_shapes_inhabited :
+  In sd_name all_shapes_covered /\
+  map (canon forms_ext) (match assoc documented_forms sd_name with Some fs => fs | None => [] end) =
+  [[("points", CArr [CInt 3]); ("plane_equations", CArr [CInt 4])];
+   [("points", CArr [CRef "points" 0; CInt 3]); ("plane_equations", CArr [CInt 4])];
+   [("points", CArr [CInt 3]); ("plane_equations", CArr [CRef "plane_equations" 0; CInt 4])];
+   [("points", CArr [CRef "points" 0; CInt 3]); ("plane_equations", CArr [CRef "points" 0; CInt 4])]].
+Proof. split; [apply mem_In; vm_compute; reflexivity|vm_compute; reflexivity]. Qed.
 
 (* no golden contract uses check_shape_any with exactly one shape (its failure path raises IndexError, M_shape.any_fail),
    so C20_failing_check_raises_ValueError's hypothesis kind_ok is not restrictive on the golden contracts *)
@@ -243,6 +313,8 @@ Definition C20_all := (C20_match_pattern_spec, C20_check_any_first_match, C20_co
   C20_off_contract_is_ValueError, C20_extra_axis_rejected, C20_wrong_trailing_dimension_rejected,
   C20_mismatched_length_rejected, C20_documented_arguments_are_checked, C20_documented_argument_is_checked,
   C20_contracts_accept_exactly_documented_forms, C20_contract_accepts_iff_documented_form, C20_no_single_shape_check_shape_any,
+  C20_contract_accepts_iff_symbolic_forms, C20_accepts_iff_documented_form_all_shapes, C20_all_shapes_covered_have_rows,
+  C20_delegating_accepts_iff_callee_forms_all_shapes, C20_all_shapes_coverage, C20_canonical_forms_agree_on_universe,
   C20_signed_distance_stacks_must_agree, C20_signed_distance_mismatch_is_ValueError,
   C20_closest_point_stacks_must_agree, C20_rodrigues_vector_strict_refuted,
   C20_x_gradient_of_affine_is_slope, C20_x_second_difference_of_affine_is_zero, C20_x_inflection_points_sound,
